@@ -136,6 +136,42 @@ def evalBounds (P : Prims) (e : AExpr) : Except Err Iv :=
   | .ok v => .ok (v.toRat, v.toRat)
   | .error _ => ivEval P e
 
+/-- the relation `eval_inequality_expr` is asked about and its two sides -/
+def relOf : AExpr → Option (Rel × AExpr × AExpr)
+  | .eq _ a b => some (.eq, a, b)
+  | .neg (.eq _ a b) => some (.ne, a, b)
+  | .cmp op _ a b => some (.cmp op, a, b)
+  | _ => none
+
+/-- `eval_inequality_expr` on real sides: bounds of both sides (`eval_bounds`); when a side is not
+computed exactly and the two sides are equal as polynomials in their opaque subterms, all four bounds
+are replaced by 0; then the accept condition of the relation. -/
+def ineqRealDecision (P : Prims) (goal : AExpr) (r : Rel) (a b : AExpr) : Except Err Bool := do
+  let i1 ← evalBounds P a
+  let i2 ← evalBounds P b
+  let tbl := subterms goal
+  if (i1.1 != i1.2 || i2.1 != i2.2) &&
+      (Holpy.C10.Poly.toPoly (realToPE tbl a) == Holpy.C10.Poly.toPoly (realToPE tbl b)) then
+    .ok (intervalAccept r 0 0 0 0)
+  else .ok (intervalAccept r i1.1 i1.2 i2.1 i2.2)
+
+/-- `ConstInequalityMacro.eval` in full, given the primitives of the interval context. -/
+def constInequalityFull (P : Prims) (goal : AExpr) : Except Err Thm :=
+  match relOf goal with
+  | none => .error .notImpl
+  | some (r, a, b) =>
+    if typeOf a == .nat then do
+      let m ← natEval a
+      let n ← natEval b
+      if intervalAccept r m m n n then .ok ⟨goal⟩ else .error .assertion
+    else if typeOf a == .real then do
+      let ok ← ineqRealDecision P goal r a b
+      if ok then .ok ⟨goal⟩ else .error .assertion
+    else .error .notImpl
+
+/-- `check_proof` on the one-step proof `0: const_inequality goal`. -/
+def acceptConstInequality (P : Prims) (goal : AExpr) : Except Err Thm := checked (constInequalityFull P) goal
+
 /-! ### exact rational interval arithmetic (used by the driver in place of mpmath's; the harness
 injects the same arithmetic into the Python, so that both sides compute identical endpoints) -/
 
